@@ -788,6 +788,8 @@ def cpl(c, F, G = None, h = None, dims = None, A = None, b = None,
                 # the last saved state and require a standard line search. 
 
                 phi, gap = phi0, gap0
+                pcost, dcost, relgap = pcost0, dcost0, relgap0
+                pres, dres = pressv, dressv
                 mu = gap / ( mnl + dims['l'] + len(dims['q']) + 
                     sum(dims['s']) )
                 blas.copy(W0['dnl'], W['dnl'])
@@ -1210,6 +1212,8 @@ def cpl(c, F, G = None, h = None, dims = None, A = None, b = None,
                             blas.copy(lmbdasq, lmbdasq0)
                             dsdz0 = dsdz
                             sigma0, eta0 = sigma, eta
+                            pcost0, dcost0, relgap0 = pcost, dcost, relgap
+                            pressv, dressv = pres, dres
                             xcopy(rx, rx0);  ycopy(ry, ry0)
                             blas.copy(rznl, rznl0); blas.copy(rzl, rzl0)
                             relaxed_iters = 1
